@@ -257,19 +257,19 @@ func subOverflows(a, b Integer) bool {
 // ---------------------------------------------------------------------
 // cmap.go: comparators handed to sort.Slice by endcmap (init$2)
 
-//@ func init$2$1
+//@ func cidInit["endcmap"]$1
 //@ requires intp != nil && intp.cmapMappings != nil && 0 <= i && i < len(intp.cmapMappings.CodeSpaceRanges) && 0 <= j && j < len(intp.cmapMappings.CodeSpaceRanges)
-//@ func init$2$2
+//@ func cidInit["endcmap"]$2
 //@ requires intp != nil && intp.cmapMappings != nil && 0 <= i && i < len(intp.cmapMappings.CidChars) && 0 <= j && j < len(intp.cmapMappings.CidChars)
-//@ func init$2$3
+//@ func cidInit["endcmap"]$3
 //@ requires intp != nil && intp.cmapMappings != nil && 0 <= i && i < len(intp.cmapMappings.CidRanges) && 0 <= j && j < len(intp.cmapMappings.CidRanges)
-//@ func init$2$4
+//@ func cidInit["endcmap"]$4
 //@ requires intp != nil && intp.cmapMappings != nil && 0 <= i && i < len(intp.cmapMappings.BfChars) && 0 <= j && j < len(intp.cmapMappings.BfChars)
-//@ func init$2$5
+//@ func cidInit["endcmap"]$5
 //@ requires intp != nil && intp.cmapMappings != nil && 0 <= i && i < len(intp.cmapMappings.BfRanges) && 0 <= j && j < len(intp.cmapMappings.BfRanges)
-//@ func init$2$6
+//@ func cidInit["endcmap"]$6
 //@ requires intp != nil && intp.cmapMappings != nil && 0 <= i && i < len(intp.cmapMappings.NotdefChars) && 0 <= j && j < len(intp.cmapMappings.NotdefChars)
-//@ func init$2$7
+//@ func cidInit["endcmap"]$7
 //@ requires intp != nil && intp.cmapMappings != nil && 0 <= i && i < len(intp.cmapMappings.NotdefRanges) && 0 <= j && j < len(intp.cmapMappings.NotdefRanges)
 
 // ---------------------------------------------------------------------
@@ -376,3 +376,43 @@ func subOverflows(a, b Integer) bool {
 
 //@ func bForall
 //@ ensures [C03.exit-scoped] result != errExit
+
+// ---------------------------------------------------------------------
+// C07: CMap procedure set
+
+//@ func cidInit["endcmap"]$1
+//@ ensures [C07.sort.codespace] len(intp.cmapMappings.CodeSpaceRanges[i].Low) != len(intp.cmapMappings.CodeSpaceRanges[j].Low) ==> result == (len(intp.cmapMappings.CodeSpaceRanges[i].Low) < len(intp.cmapMappings.CodeSpaceRanges[j].Low))
+//@ ensures [C07.sort.codespace] len(intp.cmapMappings.CodeSpaceRanges[i].Low) == len(intp.cmapMappings.CodeSpaceRanges[j].Low) ==> result == (bytes.Compare(intp.cmapMappings.CodeSpaceRanges[i].Low, intp.cmapMappings.CodeSpaceRanges[j].Low) < 0)
+//@ func cidInit["endcmap"]$2
+//@ ensures [C07.sort.cidchars] result == (bytes.Compare(intp.cmapMappings.CidChars[i].Src, intp.cmapMappings.CidChars[j].Src) < 0)
+//@ func cidInit["endcmap"]$3
+//@ ensures [C07.sort.cidranges] result == (bytes.Compare(intp.cmapMappings.CidRanges[i].Low, intp.cmapMappings.CidRanges[j].Low) < 0)
+//@ func cidInit["endcmap"]$4
+//@ ensures [C07.sort.bfchars] result == (bytes.Compare(intp.cmapMappings.BfChars[i].Src, intp.cmapMappings.BfChars[j].Src) < 0)
+//@ func cidInit["endcmap"]$5
+//@ ensures [C07.sort.bfranges] result == (bytes.Compare(intp.cmapMappings.BfRanges[i].Low, intp.cmapMappings.BfRanges[j].Low) < 0)
+//@ func cidInit["endcmap"]$6
+//@ ensures [C07.sort.notdefchars] result == (bytes.Compare(intp.cmapMappings.NotdefChars[i].Src, intp.cmapMappings.NotdefChars[j].Src) < 0)
+//@ func cidInit["endcmap"]$7
+//@ ensures [C07.sort.notdefranges] result == (bytes.Compare(intp.cmapMappings.NotdefRanges[i].Low, intp.cmapMappings.NotdefRanges[j].Low) < 0)
+
+// block openers: the declared entry count is popped; counts outside 0..100 are
+// rejected and nothing is stored
+//@ func cidInit["begincidchar"]
+//@ ensures [C07.begin.limit] intp.cmapMappings != nil && old(depth(intp)) >= 1 && isInt(old(top(intp, 0))) && (asInt(old(top(intp, 0))) < 0 || asInt(old(top(intp, 0))) > 100) ==> isPSErr(result, eRangecheck) && depth(intp) == old(depth(intp)) && len(intp.cmapChars) == old(len(intp.cmapChars))
+//@ ensures [C07.begin.ok] intp.cmapMappings != nil && old(depth(intp)) >= 1 && isInt(old(top(intp, 0))) && 0 <= asInt(old(top(intp, 0))) && asInt(old(top(intp, 0))) <= 100 ==> result == nil && depth(intp) == old(depth(intp)) - 1 && len(intp.cmapChars) == int(asInt(old(top(intp, 0)))) && stackFrame(intp, 1)
+//@ func cidInit["beginbfchar"]
+//@ ensures [C07.begin.limit] intp.cmapMappings != nil && old(depth(intp)) >= 1 && isInt(old(top(intp, 0))) && (asInt(old(top(intp, 0))) < 0 || asInt(old(top(intp, 0))) > 100) ==> isPSErr(result, eRangecheck) && depth(intp) == old(depth(intp)) && len(intp.cmapChars) == old(len(intp.cmapChars))
+//@ ensures [C07.begin.ok] intp.cmapMappings != nil && old(depth(intp)) >= 1 && isInt(old(top(intp, 0))) && 0 <= asInt(old(top(intp, 0))) && asInt(old(top(intp, 0))) <= 100 ==> result == nil && depth(intp) == old(depth(intp)) - 1 && len(intp.cmapChars) == int(asInt(old(top(intp, 0)))) && stackFrame(intp, 1)
+//@ func cidInit["beginnotdefchar"]
+//@ ensures [C07.begin.limit] intp.cmapMappings != nil && old(depth(intp)) >= 1 && isInt(old(top(intp, 0))) && (asInt(old(top(intp, 0))) < 0 || asInt(old(top(intp, 0))) > 100) ==> isPSErr(result, eRangecheck) && depth(intp) == old(depth(intp)) && len(intp.cmapChars) == old(len(intp.cmapChars))
+//@ func cidInit["begincidrange"]
+//@ ensures [C07.begin.limit] intp.cmapMappings != nil && old(depth(intp)) >= 1 && isInt(old(top(intp, 0))) && (asInt(old(top(intp, 0))) < 0 || asInt(old(top(intp, 0))) > 100) ==> isPSErr(result, eRangecheck) && depth(intp) == old(depth(intp)) && len(intp.cmapRanges) == old(len(intp.cmapRanges))
+//@ ensures [C07.begin.ok] intp.cmapMappings != nil && old(depth(intp)) >= 1 && isInt(old(top(intp, 0))) && 0 <= asInt(old(top(intp, 0))) && asInt(old(top(intp, 0))) <= 100 ==> result == nil && depth(intp) == old(depth(intp)) - 1 && len(intp.cmapRanges) == int(asInt(old(top(intp, 0)))) && stackFrame(intp, 1)
+//@ func cidInit["beginbfrange"]
+//@ ensures [C07.begin.limit] intp.cmapMappings != nil && old(depth(intp)) >= 1 && isInt(old(top(intp, 0))) && (asInt(old(top(intp, 0))) < 0 || asInt(old(top(intp, 0))) > 100) ==> isPSErr(result, eRangecheck) && depth(intp) == old(depth(intp)) && len(intp.cmapRanges) == old(len(intp.cmapRanges))
+//@ func cidInit["beginnotdefrange"]
+//@ ensures [C07.begin.limit] intp.cmapMappings != nil && old(depth(intp)) >= 1 && isInt(old(top(intp, 0))) && (asInt(old(top(intp, 0))) < 0 || asInt(old(top(intp, 0))) > 100) ==> isPSErr(result, eRangecheck) && depth(intp) == old(depth(intp)) && len(intp.cmapRanges) == old(len(intp.cmapRanges))
+//@ func cidInit["begincodespacerange"]
+//@ ensures [C07.begin.limit] intp.cmapMappings != nil && old(depth(intp)) >= 1 && isInt(old(top(intp, 0))) && (asInt(old(top(intp, 0))) < 0 || asInt(old(top(intp, 0))) > 100) ==> isPSErr(result, eRangecheck) && depth(intp) == old(depth(intp)) && len(intp.cmapCodeSpaceRanges) == old(len(intp.cmapCodeSpaceRanges))
+//@ ensures [C07.begin.ok] intp.cmapMappings != nil && old(depth(intp)) >= 1 && isInt(old(top(intp, 0))) && 0 <= asInt(old(top(intp, 0))) && asInt(old(top(intp, 0))) <= 100 ==> result == nil && depth(intp) == old(depth(intp)) - 1 && len(intp.cmapCodeSpaceRanges) == int(asInt(old(top(intp, 0)))) && stackFrame(intp, 1)
